@@ -19,7 +19,8 @@ Bind: code -> spec.  The cluster state is scripted over virtual time (timelines 
       instant and takes a small positive virtual time.  The recorded run (instant and snapshot of every poll, outcome,
       instant of the outcome) is validated by TLC against Trace_ControlAgree.tla.  Fault: the k-th poll is answered by
       closing the coordinator's connection, so an exception escapes from the wait (Abort): the request's result must
-      then say that agreement was not reached.
+      then say that agreement was not reached.  Fault: the node leaves the schema-version queries unanswered for a
+      while (PollLost: a poll that sees nothing); a wait whose every poll was lost must report "no agreement".
 """
 import os
 
@@ -49,7 +50,7 @@ META = {
 INVARIANTS = ["TypeOK", "AgreementOnlyWhenUniform", "UniformIsReported", "NoAgreementOnlyAfterWait", "KeepsPolling",
               "FutureRecords"]
 WITNESSES = ["Witness_AgreeLater", "Witness_DownIgnored", "Witness_NoneCounts", "Witness_Timeout", "Witness_DenseSchedule",
-             "Witness_FutureYesNoMeta", "Witness_AbortAfterPolls"]
+             "Witness_FutureYesNoMeta", "Witness_AbortAfterPolls", "Witness_NothingSeen"]
 MODES = ["direct", "ddl_meta", "ddl_nometa"]
 MAX_REPORT_PER_SIGNATURE = 2
 VERS = ("A", "B")
@@ -98,18 +99,29 @@ def timelines(ctx, rc):
         cuts = sorted(rng.sample(range(1, w + 3), k - 1))
         tl = [(0, rng.choice(snaps))] + [(c, rng.choice(snaps)) for c in cuts]
         cases.append((rng.choice(MODES), w, tl))
-    cases = [c + (None,) for c in cases]
+    cases = [c + (None, None) for c in cases]
     # the wait is cut short: the k-th poll is answered by closing the coordinator's connection (after k disagreeing polls)
     disagreeing = [s for s in snaps if not rc._uniform(s)]
     n = 0
     for s in disagreeing:
         for k in ((1,) if ctx.quick else (0, 1, 2)):
             for m in ((MODES[1 + n % 2],) if ctx.quick else MODES):
-                cases.append((m, 14 if k == 2 else 10, [(0, s)], k))
+                cases.append((m, 14 if k == 2 else 10, [(0, s)], k, None))
             n += 1
     for s in disagreeing[:6]:
-        cases.append(("direct", 10, [(0, s)], 1))
-        cases.append(("ddl_meta", 6, [(0, s)], 0))
+        cases.append(("direct", 10, [(0, s)], 1, None))
+        cases.append(("ddl_meta", 6, [(0, s)], 0, None))
+    # polls that see nothing: the node does not answer the schema-version queries for a while (snapshot None); the
+    # driver's query timeout is 2 s (one lost poll eats the rest of the wait) or 0.1-0.15 s (several lost polls)
+    some = [snaps[0], disagreeing[0], disagreeing[len(disagreeing) // 2], snaps[-1]] if ctx.quick else snaps
+    for w in waits:
+        for m in MODES:
+            for qt in (None, 2, 3):
+                cases.append((m, w, [(0, None)], None, qt))                       # every poll of the wait is lost
+                for s in some:
+                    cases.append((m, w, [(0, None), (4, s)], None, qt))           # lost, then answered
+                    if not rc._uniform(s):
+                        cases.append((m, w, [(0, s), (3, None)], None, qt))       # answered (disagreeing), then lost
     return cases
 
 
@@ -157,15 +169,15 @@ def run(ctx):
     hs = _harnesses([1, 2], [3])
     cases = timelines(ctx, rc)
     traces = []
-    for i, (mode, w, tl, fault) in enumerate(cases):
-        tr, got = rc.agree_trace(hs, mode, w, tl, fault)
+    for i, (mode, w, tl, fault, qt) in enumerate(cases):
+        tr, got = rc.agree_trace(hs, mode, w, tl, fault, qt)
         traces.append(tr)
         npolls = sum(1 for e in tr if e["e"] == "Poll")
-        if npolls >= 2 or any(x != "up" for _, s in tl for x in s["st"]):
+        if npolls >= 2 or any(s is None or x != "up" for _, s in tl for x in (s or {"st": []})["st"]):
             ctx.nontrivial(i)
         if i % 2503 == 11:
             ctx.sample({"mode": mode, "wait_s": w * rc.TICK, "timeline": [(f * rc.TICK, s) for f, s in tl],
-                        "connection_closed_at_poll": fault, "recorded": [{k: v for k, v in e.items()} for e in tr[1:]]})
+                        "connection_closed_at_poll": fault, "query_timeout_s": None if qt is None else qt * rc.TICK, "recorded": [{k: v for k, v in e.items()} for e in tr[1:]]})
     for h in hs.values():
         h.shutdown()
     timing["real_runs"] = round(time.time() - t0, 1)
@@ -208,12 +220,13 @@ def run(ctx):
         sig = rc.agree_signature(t, at)
         by_sig[sig] = by_sig.get(sig, 0) + 1
         if by_sig[sig] <= MAX_REPORT_PER_SIGNATURE:
-            mode, w, tl, fault = cases[i]
+            mode, w, tl, fault, qt = cases[i]
             ctx.violation("%s, wait %.2f s, timeline %s%s: the recorded run %s is not a behaviour of ControlAgree.tla (rejected at "
                           "event %d: %s)" % (mode, w * rc.TICK, [(f * rc.TICK, s) for f, s in tl],
                                              "" if fault is None else ", connection closed instead of answering poll #%d" % fault,
                                              t[1:], at, t[at]),
                           replay={"mode": mode, "wait": w, "timeline": [[f, s] for f, s in tl], "fault_at_poll": fault,
+                                  "query_timeout_ticks": qt,
                                   "recorded": t, "rejected_at": at},
                           signature=sig)
     ctx.traces_validated += accepted
@@ -247,7 +260,7 @@ def replay(ctx, obj):
     from harness.replay import control as rc
     hs = _harnesses([1, 2], [3])
     tl = [(f, s) for f, s in obj["timeline"]]
-    tr, got = rc.agree_trace(hs, obj["mode"], obj["wait"], tl, obj.get("fault_at_poll"))
+    tr, got = rc.agree_trace(hs, obj["mode"], obj["wait"], tl, obj.get("fault_at_poll"), obj.get("query_timeout_ticks"))
     for h in hs.values():
         h.shutdown()
     print("mode=%s wait=%.2fs" % (obj["mode"], obj["wait"] * rc.TICK))
